@@ -260,7 +260,9 @@ def material_cfgs(tier):
     out = []
     bases = [None, ''] + list(S.MATERIAL_BASES) + ['xx', 'fraction']
     for (mb, mu) in S.material_reprs():
-        for (lb, lu) in (('molar', 'mmol'), ('mass', 'g'), ('fraction', None), ('percent', None)):
+        # (a fractional isotherm that comes out of the constructor keeps whatever loading-unit label it was given -- 'mmol' by
+        # default --, one that comes out of convert_loading has None: both are states the methods must handle)
+        for (lb, lu) in (('molar', 'mmol'), ('mass', 'g'), ('fraction', None), ('percent', None), ('percent', 'mmol'), ('fraction', 'g')):
             for bt in bases:
                 b = bt or mb
                 units = ([None, ''] + list(S.MATERIAL_BASES[b]) + ['xx'] + (['kg'] if b != 'mass' else ['mol'])) \
